@@ -35,6 +35,7 @@ import (
 	"strings"
 	"sync"
 
+	"github.com/tmpim/casket"
 	"verifharness/lib"
 	"verifharness/probe"
 )
@@ -358,12 +359,12 @@ func writeFixture(root string) error {
 		os.MkdirAll(filepath.Join(root, t, "int"), 0o755)
 		os.MkdirAll(filepath.Join(root, t, "auth"), 0o755)
 		files := map[string]string{
-			filepath.Join(d, "hello.txt"):                   helloTxt,
-			filepath.Join(d, "page.html"):                   pageHTML,
-			filepath.Join(d, "big.bin"):                     string(lib.DetBody(20, 70000)),
-			filepath.Join(d, "sub", "index.html"):           indexHTML,
-			filepath.Join(root, t, "int", "secret.txt"):     "internal only\n",
-			filepath.Join(root, t, "auth", "file.txt"):      "behind basicauth\n",
+			filepath.Join(d, "hello.txt"):               helloTxt,
+			filepath.Join(d, "page.html"):               pageHTML,
+			filepath.Join(d, "big.bin"):                 string(lib.DetBody(20, 70000)),
+			filepath.Join(d, "sub", "index.html"):       indexHTML,
+			filepath.Join(root, t, "int", "secret.txt"): "internal only\n",
+			filepath.Join(root, t, "auth", "file.txt"):  "behind basicauth\n",
 		}
 		for p, body := range files {
 			if err := os.WriteFile(p, []byte(body), 0o644); err != nil {
@@ -436,6 +437,15 @@ func (r *reqRec) anyHostileHdr() bool {
 // checkDump judges the text of {request}: "the entire HTTP request (minus
 // body), sanitized to display on a single line": request line, Host, every
 // header line verbatim, in any order, nothing else.
+// dumpHeaderLines are the header lines of the request as the server has them.
+func (r *reqRec) dumpHeaderLines() []string {
+	hs := append([]string{"Host: " + r.Host}, r.Hdrs...)
+	if r.Body != nil {
+		hs = append(hs, "Content-Length: "+strconv.Itoa(len(r.Body)))
+	}
+	return hs
+}
+
 func (r *reqRec) checkDump(s string) bool {
 	if !strings.HasSuffix(s, `\r\n\r\n`) {
 		return false
@@ -447,12 +457,9 @@ func (r *reqRec) checkDump(s string) bool {
 	if lines[0] != r.Method+" "+r.Target+" HTTP/1.1" && lines[0] != r.Method+" "+r.NormURI+" HTTP/1.1" {
 		return false
 	}
-	want := map[string]int{"Host: " + r.Host: 1}
-	for _, h := range r.Hdrs {
+	want := map[string]int{}
+	for _, h := range r.dumpHeaderLines() {
 		want[h]++
-	}
-	if r.Body != nil {
-		want["Content-Length: "+strconv.Itoa(len(r.Body))]++
 	}
 	for _, l := range lines[1:] {
 		if want[l] == 0 {
@@ -648,7 +655,7 @@ func (g *gen) newRid() string {
 var ridRe = regexp.MustCompile(`R[0-9a-f]{4}-[0-9]{6}E`)
 
 // make builds one request for outcome o on site s (s may be nil for nosite).
-func (g *gen) make(r *lib.Rng, s *site, o *outcome, allSites []*site) *reqRec {
+func (g *gen) make(r *lib.Rng, s *site, o *outcome) *reqRec {
 	q := &reqRec{Rid: g.newRid(), site: s, Outcome: o.Name, Query: map[string]string{}, Cookies: map[string]string{}}
 	top := r.Pick(tops)
 	var pth string
@@ -845,7 +852,9 @@ func (rn *runner) worker(ch <-chan *reqRec, wg *sync.WaitGroup) {
 	}
 }
 
-func inScope(scope, p string) bool { return scope == "/" || p == scope || strings.HasPrefix(p, scope+"/") }
+func inScope(scope, p string) bool {
+	return scope == "/" || p == scope || strings.HasPrefix(p, scope+"/")
+}
 
 func excepted(list []string, p string) (bool, string) {
 	for _, e := range list {
@@ -859,7 +868,6 @@ func excepted(list []string, p string) (bool, string) {
 type judge struct {
 	c     *lib.Ctx
 	round int
-	cf    string
 }
 
 func (j *judge) viol(key, what string, q *reqRec, l *logSpec, extra map[string]interface{}) {
@@ -1031,7 +1039,6 @@ func (j *judge) judgeRound(sites []*site, reqs []*reqRec) {
 			c.Eval(1)
 			c.Count("requests_judged", 1)
 			c.Count("outcome_"+outcomeClass(q), 1)
-			expectedAny := false
 			for li, l := range s.Logs {
 				got := lines[li][q.Rid]
 				in := inScope(l.Scope, q.Path)
@@ -1063,7 +1070,6 @@ func (j *judge) judgeRound(sites []*site, reqs []*reqRec) {
 				case !want && len(got) > 0:
 					j.viol("C20/line-unexpected/out-of-scope", "a request outside this log's path scope was logged", q, l, map[string]interface{}{"lines": got})
 				case want:
-					expectedAny = true
 					c.Count("lines_exactly_once", 1)
 					j.judgeLine(q, l, got[0])
 				case in:
@@ -1075,7 +1081,6 @@ func (j *judge) judgeRound(sites []*site, reqs []*reqRec) {
 					c.Count("out_of_scope_and_absent", 1)
 				}
 			}
-			_ = expectedAny
 		}
 	}
 	// requests no site serves: outside every log (already reported above if a
@@ -1149,19 +1154,31 @@ func run(c *lib.Ctx) {
 		logDir := filepath.Join(c.Dir, fmt.Sprintf("logs-%d", round))
 		os.MkdirAll(logDir, 0o755)
 		sites := genSites(c, round, nsites, logDir)
-		port := lib.FreePort()
-		var cf strings.Builder
 		for _, s := range sites {
-			cf.WriteString(s.block(port, root))
 			for _, l := range s.Logs {
 				formats[l.sig] = true
 				c.Count("log_directives", 1)
 			}
 			c.Count("sites_layout_"+s.Layout, 1)
 		}
-		os.WriteFile(filepath.Join(logDir, "Casketfile"), []byte(cf.String()), 0o644)
-		c.Journal("round %d: starting instance with %d sites (Casketfile in %s)", round, len(sites), logDir)
-		inst, err := lib.Start(cf.String(), filepath.Join(logDir, "Casketfile"))
+		// the port is reserved and released before casket binds it: another
+		// process on this shared machine may take it in between
+		var inst *casket.Instance
+		var port int
+		var err error
+		for attempt := 0; attempt < 4; attempt++ {
+			port = lib.FreePort()
+			var cf strings.Builder
+			for _, s := range sites {
+				cf.WriteString(s.block(port, root))
+			}
+			os.WriteFile(filepath.Join(logDir, "Casketfile"), []byte(cf.String()), 0o644)
+			c.Journal("round %d: starting instance with %d sites (Casketfile in %s)", round, len(sites), logDir)
+			inst, err = lib.Start(cf.String(), filepath.Join(logDir, "Casketfile"))
+			if err == nil || !strings.Contains(err.Error(), "address already in use") {
+				break
+			}
+		}
 		if err != nil {
 			fmt.Printf("BROKEN-RUN property=C20 cannot start casket (round %d): %v\n", round, err)
 			c.Inconclusive("cannot start casket: " + err.Error())
@@ -1174,7 +1191,7 @@ func run(c *lib.Ctx) {
 		for _, s := range sites {
 			for oi := range outs {
 				for k := 0; k < perOutcome; k++ {
-					reqs = append(reqs, g.make(r, s, &outs[oi], sites))
+					reqs = append(reqs, g.make(r, s, &outs[oi]))
 				}
 			}
 		}
@@ -1192,9 +1209,12 @@ func run(c *lib.Ctx) {
 		close(ch)
 		wg.Wait()
 		issued += int64(len(reqs))
-		// stop: OnShutdown closes (flushes) every log file
+		// stop the servers (graceful: every handler, and with it every log
+		// write, has returned), then run the shutdown callbacks, which
+		// close every log file
 		lib.StopWait(inst)
-		j := &judge{c: c, round: round, cf: cf.String()}
+		inst.ShutdownCallbacks()
+		j := &judge{c: c, round: round}
 		j.judgeRound(sites, reqs)
 		if c.Violations() == 0 {
 			os.RemoveAll(logDir)
